@@ -75,6 +75,8 @@ MARKERS = [
     ("INDEX", r"index\s*\.\s*continuities\s*\.\s*insert\("),
     ("ALLOC", r"unwrap_or_else\(\s*\|\|\s*Uuid::new_v4\(\)"),
     ("CREATE", r"self\s*\.\s*create_continuity_locked\("),
+    # a helper that is handed the guard (`self.take_seq(&mut next_seq, ..)`): its steps happen here
+    ("HELPER", r"self\s*\.\s*(?!create_continuity_locked\b)(\w+)\s*\(\s*&mut\s+next_seq\b"),
 ]
 
 
@@ -94,7 +96,10 @@ def tokens(body):
     return out
 
 
-def steps_of(body, create_locked_steps=None):
+SRC = [""]
+
+
+def steps_of(body, create_locked_steps=None, depth=0):
     """-> (list of coq mstep terms, kind of the (last) appended event)"""
     if body is None:
         return [], None
@@ -140,6 +145,9 @@ def steps_of(body, create_locked_steps=None):
             steps.append("MAlloc")
         elif name == "CREATE":
             steps.extend(create_locked_steps if create_locked_steps is not None else ["MUnknown"])
+        elif name == "HELPER":
+            hb = fn_body(SRC[0], m.group(1)) if depth < 2 else None
+            steps.extend(steps_of(hb, None, depth + 1)[0] if hb is not None else ["MUnknown"])
     if bound:
         steps.append("MUnlock")
     return steps, last_kind
@@ -152,6 +160,7 @@ def main():
     a = ap.parse_args()
     path = os.path.join(a.repo, "crates", "ripd", "src", "continuities.rs")
     src = strip(open(path).read()) if os.path.exists(path) else ""
+    SRC[0] = src
     locked = []
     for name in LOCKED:
         st, kind = steps_of(fn_body(src, name))
@@ -262,6 +271,7 @@ def main():
     # frames.len()` taken before, exactly one `*self.seq += frame_count as u64;` after.  Reported as
     # (line, increments found); obligation: at least one site, every site 1.
     emit_sites, emit_notes = [], []
+    pipe_cuts = []
 
     def blank_strings(t):
         out, i, n = [], 0, len(t)
@@ -340,6 +350,17 @@ def main():
                   and len(re.findall(r"self\s*\.\s*seq\s*[-+]?=", after)) == 1)
             emit_sites.append((t.count("\n", 0, bm.start()) + 1, 1 if ok else 0))
             found_here += 1
+            # the count and the emitted list: nothing may touch `frames` between `frame_count = frames.len()`
+            # and `emit_all(frames)` (a cut of the mapped frames after the count makes the counter run ahead
+            # of what is emitted)
+            cm = list(re.finditer(r"let\s+frame_count\s*=\s*frames\s*\.\s*len\(\)\s*;", before))
+            if rel.endswith("session.rs"):
+                if len(cm) != 1:
+                    pipe_cuts.append(("unknown", t.count("\n", 0, bm.start()) + 1))
+                else:
+                    between = before[cm[0].end():]
+                    touched = re.search(r"\bframes\b|\bframe_count\b", between) is not None
+                    pipe_cuts.append(("CutFramesAfterCount" if touched else "CutParsed", t.count("\n", 0, bm.start()) + 1))
         if must and found_here == 0:
             emit_notes.append(rel + ": no emit site found")
             emit_sites.append((0, 0))
@@ -349,7 +370,7 @@ def main():
 
     out = ["(* GENERATED by tools/gen/append_skeleton.py from crates/ripd/src/continuities.rs - do not edit.",
            "   Micro-step order of every continuity append path (C01, T1). *)",
-           "From RipV Require Import Base.Prelude Model.Frames Model.Log Model.ContStore Model.SessGuard.", "",
+           "From RipV Require Import Base.Prelude Model.Frames Model.Log Model.ContStore Model.SessGuard Model.SeqCount.", "",
            "Definition gen_locked_ops : list (etype * list mstep) :=", "  ["]
     rows = []
     for name, kind, st in locked:
@@ -398,6 +419,25 @@ Proof. vm_compute. reflexivity. Qed.""")
     out.append("Definition gen_emit_sites : list (N * N) := %s." % lst(["(%d, %d)" % x for x in emit_sites]))
     out.append("Lemma gen_emit_sites_ok : sites_ok gen_emit_sites = true.")
     out.append("Proof. vm_compute. reflexivity. Qed.")
+    out.append("")
+    out.append("(* a log append that fails (`event_log.append(&event)?` returns Err, the guard is dropped): every writer cut")
+    out.append("   at its k-th log append must still be a well-formed program, i.e. no writer has touched the thread's")
+    out.append("   counter (next_seq.insert(.., seq + 1) / a helper doing it) before the append it numbers has succeeded *)")
+    out.append("""Definition gen_failed_append_ok_b : bool :=
+  forallb (fun x => wf_prog (MTarget 0 :: fail_at 0 (snd x))) gen_locked_ops
+  && forallb (fun k => wf_prog (fail_at k gen_create) && wf_prog (fail_at k gen_branch) && wf_prog (fail_at k gen_handoff))
+             [0; 1; 2]%nat.
+Lemma gen_failed_append_ok : gen_failed_append_ok_b = true.
+Proof. vm_compute. reflexivity. Qed.""")
+    out.append("")
+    cut_ok = len(pipe_cuts) >= 1 and all(c[0] != "unknown" for c in pipe_cuts)
+    cut = "CutParsed" if cut_ok and all(c[0] == "CutParsed" for c in pipe_cuts) else "CutFramesAfterCount"
+    out.append("(* OpenResponsesSsePipe (session.rs), the bulk emit sites `emit_all(frames)`: is the list that is counted")
+    out.append("   (`frame_count = frames.len()`) the list that is emitted - nothing touches `frames` in between?  %s *)" % "; ".join("%s at line %d" % c for c in pipe_cuts))
+    out.append("Definition gen_ok_pipe_cut : bool := %s." % ("true" if cut_ok else "false"))
+    out.append("Definition gen_pipe_cut : cutk := %s." % cut)
+    out.append("Lemma gen_pipe_cut_ok : gen_ok_pipe_cut && cutk_eqb gen_pipe_cut PIPE_CUT = true.")
+    out.append("Proof. vm_compute. reflexivity. Qed.")
     os.makedirs(a.out, exist_ok=True)
     open(os.path.join(a.out, "AppendOps.v"), "w").write("\n".join(out) + "\n")
     for name, kind, st in locked:
@@ -408,6 +448,7 @@ Proof. vm_compute. reflexivity. Qed.""")
     print("spawn_session guard:", sess_guard, sess_guard_why)
     print("run counter emit sites (line, increments):", emit_sites, emit_notes)
     print("other functions taking the seq mutex:", extra)
+    print("pipe: counted list vs emitted list:", pipe_cuts)
     print("TaskEmitter::emit :", " ".join(task_steps))
     return 0
 
